@@ -353,6 +353,28 @@ def b_same_coefficients(tier):
                         b.fail(Failure("same-coefficients", f"what=scalar-comparison dim={dim} group={gname} form={i} scalar={scalar} data={u.data!r}",
                                        dict(kind="ga-same", dim=dim, group=gname, forms=[i]), expected=f"== {scalar}", actual=outcome.describe(r)[:200],
                                        functions=["MultiVector.__eq__", "_cast_or_ni", "__init__"]))
+        # the same coefficients in a space of another dimension / metric, and a scalar multivector against its scalar:
+        # whatever == says, equal objects hash alike and find each other
+        other_sp = Space([f"f{i}" for i in range(dim + 1)], np.diag(np.array((2,) * (dim + 1), dtype=object)))
+        for gname, ms in built.items():
+            for i, u in ms[:4]:
+                v = outcome.run(lambda: MultiVector(dict(u.data), other_sp))
+                if v[0] != "val":
+                    continue
+                r = outcome.run(lambda: ((u == v[1]), (hash(u) == hash(v[1])), (v[1] in {u})))
+                b.case(("other-space", dim, gname, i))
+                if r[0] != "val" or (r[1][0] and not (r[1][1] and r[1][2])):
+                    b.fail(Failure("same-coefficients", f"what=equal-across-spaces-hash-differs dim={dim} group={gname} form={i} data={u.data!r}",
+                                   dict(kind="ga-same", dim=dim, group=gname, forms=[i]), expected="== implies same hash and set membership", actual=outcome.describe(r)[:200],
+                                   functions=["MultiVector.__eq__", "__hash__"]))
+            scalar = {"zero": 0, "3": 3}.get(gname)
+            if scalar is not None:
+                for i, u in ms:
+                    r = outcome.run(lambda: (hash(u) == hash(scalar), scalar in {u}, u in {scalar}))
+                    b.case(("scalar-hash", dim, gname, i))
+                    if r != ("val", (True, True, True)):
+                        b.fail(Failure("same-coefficients", f"what=scalar-hash dim={dim} group={gname} form={i} scalar={scalar}", dict(kind="ga-same", dim=dim, group=gname, forms=[i]),
+                                       expected=f"hash and set membership agree with == {scalar}", actual=outcome.describe(r)[:200], functions=["MultiVector.__hash__"]))
         for (ga, ma), (gb, mb) in itertools.combinations(built.items(), 2):
             for (i, u), (j, v) in itertools.product(ma, mb):
                 r = outcome.run(lambda: (u != v, not (u == v)))
